@@ -37,11 +37,18 @@ Invocations ==
   \* pipe): nothing appears in the directory, the reader receives the binary - or nothing at all if the source is rejected
   \cup {[tool |-> t, src |-> s, opt |-> o, pos |-> "after", pre |-> "fifo", xv |-> 0, via |-> "const"] :
           t \in Compilers, s \in SrcClass, o \in OptSpell \ {"none"}}
+  \* the run options of the simulators (tracing; a cycle limit far above the run's length) in both positions: the status is still the program's
+  \* exit value and nothing but the expected files appears
+  \cup {[tool |-> t, src |-> "accepted", opt |-> o, pos |-> p, pre |-> "absent", xv |-> x, via |-> "const"] :
+          t \in {"xrun", "hexsim"}, o \in {"-t", "--trace", "--max-cycles"}, p \in OptPos, x \in {7, 255, 256}}
+  \cup {[tool |-> t, src |-> "accepted", opt |-> o, pos |-> "before", pre |-> "absent", xv |-> x, via |-> "class"] :
+          t \in {"xrun", "hexsim"}, o \in {"-t", "--max-cycles"}, x \in ReadVals}
   \* an image larger than 200000 bytes (but well inside the 200000-word memory)
   \cup {[tool |-> "hexsim", src |-> "accepted", opt |-> "none", pos |-> "after", pre |-> "absent", xv |-> 5, via |-> "big"]}
 WellFormed(i) == ~(i.opt = "none" /\ i.pos = "before")      \* position is meaningless without the option
 
 Target(i) == CASE i.tool = "xrun" -> "a.bin" [] i.tool = "hexsim" -> "" [] i.opt = "none" -> "a.out" [] OTHER -> "out.bin"
+\* (for the simulators opt is a run option, not an output option)
 Status8(v) == v % 256
 \* the value the program passes to exit: a constant; the byte it read; or ("class") a verdict on the byte it read that tells
 \* a byte 0..255 (255 at end of input) from a sign-extended one: negative 9, below 128 1, 255 3, otherwise 2
